@@ -16,11 +16,20 @@ Specification, independent of the code: `AV.Edit.Edits ins del sub ref w n`
 enabled kinds (matched symbols are free; substitution, deletion of a reference symbol,
 insertion of a symbol cost 1 each).  "At most k edits" is `∃ n ≤ k, Edits … n`.
 
-Domain: the reference string is over the alphabet (otherwise the constructor refuses the
-automaton: a transition on a symbol outside `input_symbols`); `k : ℤ` as in Python.
+The OPERATIONAL reading of the English — a chain of at most `k` single edits, each one
+insertion, deletion or substitution of one symbol at an arbitrary position (`Step1`, `Steps`,
+`StepsLe`, Proofs/EditSteps.lean) — is proved equivalent to the alignment reading for every
+set of enabled kinds (`C16_alignment_iff_operational`), and the main theorem is restated with
+it (`C16_edit_distance_operational`).
+
+Domain: the reference string is over the alphabet; otherwise the constructor refuses the
+automaton with `InvalidSymbolError` (a transition on a symbol outside `input_symbols`):
+`C16_ref_outside_alphabet`.  `k : ℤ` as in Python.
 -/
 import AutomataVerif.Proofs.EpsOpsD
+import AutomataVerif.Proofs.EditSteps
 import AutomataVerif.Proofs.NFAEditSpec
+import AutomataVerif.Proofs.NFAEditRefuse
 import AutomataVerif.Props.C01
 
 namespace AV.Props.C16
@@ -60,6 +69,72 @@ theorem C16_edit_distance (syms ref : List α) (k : Int) (ins del sub : Bool) (h
     exact hnone i e t hi he
   · intro i e hi he
     exact hfin i e hi he
+
+/-- **"At most k edits", alignment = operation sequence.**  For all strings, every bound and
+every set of enabled edit kinds: an alignment of `r` and `w` with at most `k` unit-cost edits
+exists iff `w` is reached from `r` by a chain of at most `k` single edits, each inserting,
+deleting or replacing one symbol at an arbitrary position of the current string and writing
+only symbols of the alphabet `syms` (`w` itself being over `syms`). -/
+theorem C16_alignment_iff_operational (syms : List α) (ins del sub : Bool) (k : Nat) (r w : List α)
+    (hw : ∀ c ∈ w, c ∈ syms) :
+    (∃ n, n ≤ k ∧ Edits ins del sub r w n) ↔ StepsLe (· ∈ syms) ins del sub k r w :=
+  edits_le_iff_stepsLe (· ∈ syms) ins del sub k r w hw
+
+/-- … and allowing the chain to write arbitrary symbols (passing through strings outside the
+alphabet) reaches no further word over the alphabet. -/
+theorem C16_operational_any_symbols (syms : List α) (ins del sub : Bool) (k : Nat) (r w : List α)
+    (hw : ∀ c ∈ w, c ∈ syms) :
+    StepsLe (fun _ => True) ins del sub k r w ↔ StepsLe (· ∈ syms) ins del sub k r w :=
+  stepsLe_restrict (· ∈ syms) ins del sub k r w hw
+
+/-- **C16 (language), operational reading.**  For every alphabet `syms`, reference string
+`ref` over it, bound `k ≥ 0` and every non-empty set of enabled edit kinds, `edit_distance`
+returns a valid NFA `R`, and `R` accepts `w` exactly when `w` is over the alphabet and is
+obtained from `ref` by a sequence of at most `k` single edits of the enabled kinds (one
+symbol inserted, deleted or replaced at any position per edit). -/
+theorem C16_edit_distance_operational (syms ref : List α) (k : Int) (ins del sub : Bool)
+    (hk : 0 ≤ k) (hflag : (ins || del || sub) = true) (href : ∀ c ∈ ref, c ∈ syms) :
+    ∃ R : AV.NFA (Nat × Nat) α, editDistance syms ref k ins del sub = .ok R ∧
+      R.validate = .ok () ∧
+      ∀ w : List α, R.accepts w = true ↔
+        (∀ c ∈ w, c ∈ syms) ∧ StepsLe (· ∈ syms) ins del sub k.toNat ref w := by
+  obtain ⟨R, hR, hval, hw⟩ := C16_edit_distance syms ref k ins del sub hk hflag href
+  refine ⟨R, hR, hval, fun w => ?_⟩
+  rw [hw w]
+  constructor
+  · rintro ⟨h1, n, hn, he⟩
+    exact ⟨h1, (C16_alignment_iff_operational syms ins del sub k.toNat ref w h1).mp
+      ⟨n, by omega, he⟩⟩
+  · rintro ⟨h1, hs⟩
+    obtain ⟨n, hn, he⟩ := (C16_alignment_iff_operational syms ins del sub k.toNat ref w h1).mpr hs
+    exact ⟨h1, n, by omega, he⟩
+
+/-- The same with unrestricted intermediate strings. -/
+theorem C16_edit_distance_operational_any (syms ref : List α) (k : Int) (ins del sub : Bool)
+    (hk : 0 ≤ k) (hflag : (ins || del || sub) = true) (href : ∀ c ∈ ref, c ∈ syms) :
+    ∃ R : AV.NFA (Nat × Nat) α, editDistance syms ref k ins del sub = .ok R ∧
+      R.validate = .ok () ∧
+      ∀ w : List α, R.accepts w = true ↔
+        (∀ c ∈ w, c ∈ syms) ∧ StepsLe (fun _ => True) ins del sub k.toNat ref w := by
+  obtain ⟨R, hR, hval, hw⟩ := C16_edit_distance_operational syms ref k ins del sub hk hflag href
+  refine ⟨R, hR, hval, fun w => ?_⟩
+  rw [hw w]
+  constructor
+  · rintro ⟨h1, hs⟩
+    exact ⟨h1, (C16_operational_any_symbols syms ins del sub k.toNat ref w h1).mpr hs⟩
+  · rintro ⟨h1, hs⟩
+    exact ⟨h1, (C16_operational_any_symbols syms ins del sub k.toNat ref w h1).mp hs⟩
+
+/-- **C16 (reference string outside the alphabet).**  The language clause above speaks
+about reference strings over the alphabet.  For every other reference string (with an
+admissible bound and at least one enabled kind) no automaton is returned: the constructor
+call at the end of `edit_distance` raises `InvalidSymbolError` — the grid's matching
+transition on the foreign symbol is the first thing `validate` meets (every target is a grid
+state, so no `InvalidStateError` comes first). -/
+theorem C16_ref_outside_alphabet (syms ref : List α) (k : Int) (ins del sub : Bool) (hk : 0 ≤ k)
+    (hflag : (ins || del || sub) = true) (hbad : ∃ c ∈ ref, c ∉ syms) :
+    editDistance syms ref k ins del sub = .error (.lib .invalidSymbolError) :=
+  EditRefuse.editDistance_ref_outside syms ref k ins del sub hk hflag hbad
 
 /-- **C16 (refused arguments).**  A negative bound is refused with `ValueError` … -/
 theorem C16_negative_bound (syms ref : List α) (k : Int) (ins del sub : Bool) (hk : k < 0) :
@@ -117,6 +192,18 @@ example : (match exLev with
 example : (match editDistance [0, 1] [0, 1] 1 false false true with
     | .ok R => R.accepts [0, 0] && !R.accepts [0]
     | .error _ => false) = true := by decide
+
+/-- The reference string `ac` is not over `{a, b}`. -/
+example : (match editDistance [0, 1] [0, 2] 1 true true true with
+    | .error (.lib .invalidSymbolError) => true
+    | _ => false) = true := by decide
+example : editDistance [0, 1] [0, 2] 1 true true true = .error (.lib .invalidSymbolError) :=
+  C16_ref_outside_alphabet _ _ _ _ _ _ (by decide) rfl ⟨2, by decide, by decide⟩
+
+/-- `ab → b → bb`: two single edits (a deletion at position 0, an insertion at the end). -/
+example : StepsLe (· ∈ [0, 1]) true true false 2 [0, 1] [1, 1] :=
+  ⟨2, Nat.le_refl _, Steps.tail (Steps.tail (Steps.refl _) (Step1.delete [] [1] 0 rfl))
+    (Step1.insert [1] [] 1 rfl (by decide))⟩
 
 example : Edits true true true [0, 1] [1, 1] 1 := Edits.subst 0 1 rfl (Edits.keep 1 Edits.nil)
 example : Edits false true false [0, 1] [1] 1 := Edits.delete 0 rfl (Edits.keep 1 Edits.nil)
